@@ -1,14 +1,13 @@
 ------------------------------ MODULE TableTrace ------------------------------
 \* Trace validation of DataTable histories against TableDefs.tla.
-\*   TabNew   nc, s               a new table with nc columns
-\*   TabEdit  op, r, s            any editing call; s = the table afterwards
+\*   Tab      op, a (arguments), r, x (exception class), v (returned value), s (table afterwards)
+\*            any public call; bound by TableDefs!Sem: outcome ok with the definitional post-state and
+\*            value, or raise with a class that satisfies one of the documented refusals and no change
+\*   TabRead  text, sep, header, rn, r, x, s     DataTable::read into the current table (ReadSem)
 \*   TabWriteRead sep, align, header, text, r, back
-\*            DataTable::write to text, DataTable::read of that text
-\* s / back = [ncol, nrow, cols, rows, cells] read through the public const
-\* interface.  The statement of C17 is about write -> read only, so editing
-\* calls are bound loosely: whatever they do, the object must stay well formed
-\* (shape and unique names) and a refused call must leave it unchanged; the
-\* table they leave behind is the one the round trip is asserted for.
+\*            DataTable::write to text, DataTable::read of that text: the C17 statement, asserted for
+\*            every table of the statement's quantifier that the history has reached
+\* s / back = [ncol, nrow, cols, rows, cells] read through the public const interface.
 EXTENDS TableDefs, TraceLib
 
 VARIABLE T
@@ -16,12 +15,25 @@ vars == <<T>>
 Tab(s) == [ncol |-> s.ncol, nrow |-> s.nrow, cols |-> s.cols, rows |-> s.rows, cells |-> s.cells]
 NoT == [ncol |-> 0, nrow |-> 0, cols |-> <<>>, rows |-> <<>>, cells |-> <<>>]
 
-TReset  == IsEvent("Reset") /\ T' = NoT
-TTabNew == IsEvent("TabNew") /\ T' = Tab(Ev.s) /\ T'.ncol = Ev.nc /\ T'.nrow = 0 /\ T'.cols = <<>> /\ T'.rows = <<>>
-TTabEdit == /\ IsEvent("TabEdit")
-            /\ Ev.r \in {"ok", "raise"}
-            /\ T' = Tab(Ev.s)
-            /\ Ev.r = "raise" => T' = T
+TReset == IsEvent("Reset") /\ T' = NoT
+
+Args(ev) == IF ev.op = "assign" THEN [t |-> Tab(ev.a.t)] ELSE ev.a
+TTab ==
+  /\ IsEvent("Tab")
+  /\ LET S == Sem(Ev.op, Args(Ev), T) IN
+     IF S.refuse = {}
+     THEN Ev.r = "ok" /\ T' = S.post /\ Tab(Ev.s) = S.post /\ Ev.v = S.val
+     ELSE /\ Ev.r = "raise" /\ \E c \in S.refuse : Satisfies(Ev.x, c)
+          /\ T' = T /\ Tab(Ev.s) = T
+
+TTabRead ==
+  /\ IsEvent("TabRead")
+  /\ Ev.r \in {"ok", "raise"}
+  /\ LET S == ReadSem(Ev.text, Ev.sep, Ev.header, Ev.rn) IN
+     /\ S.decided => IF S.refuse = {} THEN Ev.r = "ok" /\ Tab(Ev.s) = S.post
+                     ELSE Ev.r = "raise" /\ \E c \in S.refuse : Satisfies(Ev.x, c)
+     /\ T' = Tab(Ev.s)
+     /\ Ev.r = "raise" => T' = T
 
 TTabWriteRead ==
   /\ IsEvent("TabWriteRead")
@@ -32,7 +44,7 @@ TTabWriteRead ==
        /\ Same([ok |-> TRUE] @@ Tab(Ev.back), T)                     \* and reads back identically
   /\ UNCHANGED T
 
-TraceNext == TReset \/ TTabNew \/ TTabEdit \/ TTabWriteRead
+TraceNext == TReset \/ TTab \/ TTabRead \/ TTabWriteRead
 TraceInit == T = NoT /\ l = 1
 TraceSpec == TraceInit /\ [][TraceNext]_<<vars, l>>
 Shape == WellFormed(T)
